@@ -157,6 +157,42 @@ theorem C17_no_duplicate_definitions : ∀ grp ∈ c17Groups, ∀ g h : GF,
   have := checkImp_sound axioms _ _ (key _ hgo hsub) v hax (by simp [eval, hg, hh])
   simp [GF.ff, eval] at this
 
+theorem eval_disj (v : Nat → Bool) : ∀ l : List GF, eval v (disj l) = true → ∃ f ∈ l, eval v f = true := by
+  intro l
+  induction l with
+  | nil => intro h; simp [disj, GF.ff, eval] at h
+  | cons f rest ih =>
+    intro h
+    cases rest with
+    | nil => exact ⟨f, by simp, by simpa [disj] using h⟩
+    | cons g rest' =>
+      simp only [disj, eval, Bool.or_eq_true] at h
+      rcases h with h | h
+      · exact ⟨f, by simp, h⟩
+      · obtain ⟨k, hk, hv⟩ := ih h
+        exact ⟨k, List.mem_cons_of_mem _ hk, hv⟩
+
+/-- Labels (`restart:`, `recovered:`, `flushed:`; named `Func#label`, their uses are the `goto`s of that
+function): besides `goto → label` (part of `C17_guards_consistent_partial`), every generated label is jumped to —
+Go rejects an unused label — under every valuation satisfying the implication table. -/
+theorem C17_labels_used : ∀ n ∈ c17LabelNames, ∃ g, c17Groups[n]? = some g ∧ ∀ d ∈ g.defs,
+    ∀ v : Nat → Bool, Axioms v → eval v (defSiteGuardRaw d) = true → ∃ u ∈ g.uses, eval v (useGuard u) = true := by
+  have h : labelsUsed = true := by decide +kernel
+  intro n hn
+  have hn' := List.all_eq_true.mp h n hn
+  cases hg : c17Groups[n]? with
+  | none => simp [hg] at hn'
+  | some g =>
+    refine ⟨g, rfl, ?_⟩
+    simp only [hg, List.all_eq_true] at hn'
+    intro d hd v hax hdv
+    obtain ⟨f, hf, hv⟩ := eval_disj v _ (checkImp_sound axioms _ _ (hn' d hd) v hax hdv)
+    obtain ⟨u, hu, rfl⟩ := List.mem_map.mp hf
+    exact ⟨u, hu, hv⟩
+
+/-- Non-vacuity: there are labels. -/
+example : c17LabelNames.length ≥ 5 := by decide +kernel
+
 /-- Completeness of the classification (2): the declaration sites found in the templates — package.name, file,
 define block, kind and guard — are exactly the pinned ones. A new, removed or moved declaration or an edited guard
 around one breaks this. -/
